@@ -1,23 +1,10 @@
 //! KI5c — block layer: TypeDo (BFINAL/BTYPE), Stored/CopyBlock (LEN/NLEN, byte alignment, copy accounting), Table (C02, C03, C04, C15).
 use super::*;
 
-/// TypeDo from any bit offset: BFINAL/BTYPE decoded per RFC 1951 3.2.3; last block goes to the trailer.
-#[kani::proof]
-#[kani::unwind(5)]
-#[kani::stub(crate::inflate::inftrees::inflate_table, stub_table_unreachable)]
-#[kani::stub(core::fmt::write, stub_fmt_write)]
-#[kani::stub(core::panicking::panic_nounwind, stub_pn)]
-#[kani::stub(core::panicking::panic_nounwind_fmt, stub_pnf)]
-#[kani::stub(crate::inflate::inflate_fast_help, stub_fast_unreachable)]
-#[kani::stub(crate::inflate::State::len_and_friends, stub_laf_suspends)]
-#[kani::stub(crate::inflate::writer::Writer::copy_match, stub_copy_match_unreachable)]
-#[kani::stub(crate::inflate::writer::Writer::extend_from_window, stub_efw_unreachable)]
-#[kani::stub(<[u16]>::fill, stub_fill_unreachable)]
-fn ki5c_typedo() {
+/// TypeDo from every bit offset: BFINAL/BTYPE decoded per RFC 1951 3.2.3; last block goes to the trailer.
+/// The number of bits in the register and of input bytes is concrete per instance (10 instances), their values symbolic.
+fn typedo_instance(nb: u8, n_in: usize) {
     let input: [u8; 1] = kani::any();
-    let n_in: usize = kani::any();
-    let nb: u8 = kani::any();
-    kani::assume(n_in <= 1 && nb <= 7 && nb as usize + 8 * n_in <= 9);
     let pv: u64 = kani::any();
     let mut out = [0u8; 4];
     let mut win = [0u8; 8 + 64];
@@ -49,23 +36,48 @@ fn ki5c_typedo() {
         let bfinal = all & 1 != 0;
         let btype = (all >> 1) & 3;
         assert!(last_now == bfinal);
+        assert!(used == if (nb as usize) < 3 { n_in } else { 0 });
         match btype {
             0 => assert!(rc == ReturnCode::Ok && matches!(mode, Mode::Stored) && bits_left % 8 == 0),
             1 => {
-                assert!(rc == ReturnCode::Ok);
+                assert!(rc == ReturnCode::Ok && bits_left == avail - 3);
                 if matches!(flush, InflateFlush::Trees) {
                     assert!(matches!(mode, Mode::Len_));
                 } else {
                     assert!(matches!(mode, Mode::Len));
                 }
             }
-            2 => assert!(rc == ReturnCode::Ok && matches!(mode, Mode::Table)),
+            2 => assert!(rc == ReturnCode::Ok && matches!(mode, Mode::Table) && bits_left == avail - 3),
             _ => assert!(rc == ReturnCode::DataError && matches!(mode, Mode::Bad)),
         }
     }
     kani::cover!(!was_last && avail >= 3 && ((all >> 1) & 3) == 3);
-    kani::cover!(!was_last && avail == 9 && ((all >> 1) & 3) == 1);
-    kani::cover!(was_last && nb == 5);
+    kani::cover!(!was_last && avail >= 3 && ((all >> 1) & 3) == 1);
+    kani::cover!(was_last);
+}
+
+#[kani::proof]
+#[kani::unwind(5)]
+#[kani::stub(crate::inflate::inftrees::inflate_table, stub_table_unreachable)]
+#[kani::stub(core::fmt::write, stub_fmt_write)]
+#[kani::stub(core::panicking::panic_nounwind, stub_pn)]
+#[kani::stub(core::panicking::panic_nounwind_fmt, stub_pnf)]
+#[kani::stub(crate::inflate::inflate_fast_help, stub_fast_unreachable)]
+#[kani::stub(crate::inflate::State::len_and_friends, stub_laf_suspends)]
+#[kani::stub(crate::inflate::writer::Writer::copy_match, stub_copy_match_unreachable)]
+#[kani::stub(crate::inflate::writer::Writer::extend_from_window, stub_efw_unreachable)]
+#[kani::stub(<[u16]>::fill, stub_fill_unreachable)]
+fn ki5c_typedo() {
+    typedo_instance(0, 0);
+    typedo_instance(1, 0);
+    typedo_instance(2, 0);
+    typedo_instance(3, 0);
+    typedo_instance(4, 0);
+    typedo_instance(5, 0);
+    typedo_instance(6, 0);
+    typedo_instance(7, 0);
+    typedo_instance(0, 1);
+    typedo_instance(1, 1);
 }
 
 /// Stored block: header at any bit offset, LEN/NLEN complement, copy accounting with symbolic input/output sizes.
